@@ -41,7 +41,7 @@ CLAIMED["C13"] = dict(
     note=("Trusted: Kani/CBMC/SAT; memchr-rs replaced by a scalar loop with its documented contract; the long-needle path is decided modularly "
           "(factorisation contract + find for every anchor) in the quick tier and monolithically in the thorough tier; replace is checked with find "
           "replaced by its specification and with a container model of ArenaString (appends into pre-allocated capacity; Vec growth is std's code "
-          "and the arena grow path is C11); to_number/trim/case mapping delegate to std and split/join is thorough-only."),
+          "and the arena grow path is C11); to_number/trim/case mapping delegate to std; split/join did not fit (smallest instance: 2400 s cap) and is outside the claim."),
 )
 CLAIMED["C16"] = dict(
     text=("Bounded model checking of the sequential capture kernel read_captured_stream over a reader that delivers a symbolic payload in every "
